@@ -2217,20 +2217,27 @@ fn varint_programs() -> Vec<(String, String, usize, bool)> {
             "export eta = 7\n",
             "from m import alpha as imported_alpha\n",
             "fm = '{{n1:_>12}}|{{f1:9.3}}|{{n1:<130}}|{{n1:*^9}}|{long_lit}{{s1}}'\n",
-            "(a1, m.beta, s1, n1, f1, k, r1, r2, r3, r4, r5, r6, r7, gamma, r8, eta, imported_alpha, size(fm), koto.type(m))\n"),
-            long_lit = long_lit)
+            "(a1, m.beta, s1, n1, f1, k, r1, r2, r3, r4, r5, r6, r7, gamma, r8, eta, imported_alpha, size(fm) - {long}, koto.type(m))\n"),
+            long_lit = long_lit, long = long)
     };
     let mut v = vec![];
-    for &n in &[0usize, 100, 126, 127, 128, 129, 130, 200, 16380, 16383, 16384, 16385, 16400] {
+    for &n in &[0usize, 100, 126, 127, 128, 129, 130, 200, 16383, 16384, 16385] {
         // the long literal pushes the StringStart size hint over the same boundaries
         let long = if n >= 16000 { 17000 } else if n >= 100 { 300 } else { 3 };
         let pre = const_pool_prelude(n);
         v.push((format!("varint:top:{}", n), format!("{}{}", pre, body(long)), n, true));
         let indented: String = body(long).lines().map(|l| format!("  {}\n", l)).collect();
+        if n == 16383 || n == 16385 {
+            continue;
+        }
         // `export` / `let` inside a function are fine; the result is the function's value
         v.push((format!("varint:fn:{}", n), format!("{}main = ||\n{}main()\n", pre, indented), n, true));
+        if ![0, 128, 200, 16384].contains(&n) {
+            continue;
+        }
         // compile-only: `debug` (prints) and format widths / precisions beyond one byte
-        v.push((format!("varint:compile-only:{}", n), format!("{}x = 1.5\ndebug x\ny = '{{x:200}}{{x:.200}}{{x:20000.17000}}'\n", pre), n, false));
+        v.push((format!("varint:compile-only:{}", n), format!("{}x = 1.5\ndebug x\ny = '{{x:200}}{{x:.200}}{{x:20000.17000}}'\nmm = {{{}}}\n", pre,
+            (0..(n + 3)).map(|i| format!("k{}: 0", i)).collect::<Vec<_>>().join(", ")), n, false));
     }
     v
 }
@@ -2259,10 +2266,10 @@ fn constant_collision_programs() -> Vec<(String, String, String)> {
         v.push((format!("const-collision:bits:{}", if int_first { "int-first" } else { "float-first" }), p, format!("value (t {})", expect.join(" "))));
     }
     // same value, different kind; small ints next to pooled ints; negative numbers
-    let p = "a = (255, 256, 255.0, 256.0, -255, -256, -255.0, -256.0, 0, 0.0, 1, 1.0, 65536, 65536.0)\n(a, koto.type(a[2]), koto.type(a[1]), koto.type(a[13]), koto.type(a[12]))\n";
-    let e = format!("value (t (t i255 i256 {} {} i-255 i-256 {} {} i0 {} i1 {} i65536 {}) s{} s{} s{} s{})",
-        kvh::canon::float(255.0), kvh::canon::float(256.0), kvh::canon::float(-255.0), kvh::canon::float(-256.0), kvh::canon::float(0.0), kvh::canon::float(1.0), kvh::canon::float(65536.0),
-        kvh::hex(b"Float"), kvh::hex(b"Int"), kvh::hex(b"Float"), kvh::hex(b"Int"));
+    // (the canonical value tells integers `i…` from floats `f<bits>`)
+    let p = "(255, 256, 255.0, 256.0, -255, -256, -255.0, -256.0, 0, 0.0, 1, 1.0, 65536, 65536.0)\n";
+    let e = format!("value (t i255 i256 {} {} i-255 i-256 {} {} i0 {} i1 {} i65536 {})",
+        kvh::canon::float(255.0), kvh::canon::float(256.0), kvh::canon::float(-255.0), kvh::canon::float(-256.0), kvh::canon::float(0.0), kvh::canon::float(1.0), kvh::canon::float(65536.0));
     v.push(("const-collision:value".into(), p.into(), e));
     // a string and an identifier / key / type name with the same text share one constant (same kind: allowed)
     let p = "size_ = 'size'\nm = {size: 3, Number: 'n'}\nlet x: Number = m.size\n(size_, size([1, 2]), m.size, m.Number, 'Number', x)\n";
@@ -2729,7 +2736,7 @@ fn real_main() -> i32 {
                    "AssertType", "AssertOptionalType", "CheckType", "CheckOptionalType", "StringPush"] {
             let seen = widths.get(op).cloned().unwrap_or_default();
             cx.rep.bump(&format!("varint-widths:{}={:?}", op, seen));
-            let need: &[usize] = if op == "MakeMap" { &[1] } else { &[1, 2, 3] };
+            let need: &[usize] = &[1, 2, 3];
             if !need.iter().all(|w| seen.contains(w)) {
                 cx.rep.violation("K", "C05:varint:coverage", json!({"op": op, "widths_seen": format!("{:?}", seen),
                     "note": "the sweep no longer produces this instruction at every operand width (harness coverage requirement)"}));
